@@ -20,6 +20,23 @@ def _k2m1(seed):
     return Driver("k2m1", [two_regime_series(9, 1, 5)], W=2, K=2, beta=3.0, m=1, biased=True)
 
 
+@driver("k2nptrue")
+def _k2nptrue(seed):
+    # the estimator flag as a NumPy boolean (what a comparison or an element of a boolean array gives)
+    return Driver("k2nptrue", [two_regime_series(9, 1, 5)], W=2, K=2, beta=3.0, m=2, biased=np.bool_(True))
+
+
+@driver("k2int1")
+def _k2int1(seed):
+    # ... and as the integer 1 / a NumPy false
+    return Driver("k2int1", [two_regime_series(9, 1, 5)], W=2, K=2, beta=3.0, m=2, biased=1)
+
+
+@driver("k2npfalse")
+def _k2npfalse(seed):
+    return Driver("k2npfalse", [two_regime_series(9, 1, 5)], W=2, K=2, beta=3.0, m=2, biased=np.bool_(False))
+
+
 @driver("k2big")
 def _k2big(seed):
     # huge beta: one cluster takes everything, runs end with an empty cluster
@@ -61,6 +78,12 @@ def _k2eps2(seed):
 def _k2tiny(seed):
     # small units: within-cluster variances around 1e-8
     return Driver("k2tiny", [two_regime_series(9, 1, 3) * 1e-4], W=2, K=2, beta=1.0, m=2, biased=True)
+
+
+@driver("k2lowvar")
+def _k2lowvar(seed):
+    # tiny spread on an offset of 5: consecutive rounds' statistics agree to ~1e-5 relative without being equal
+    return Driver("k2lowvar", [5.0 + two_regime_series(9, 1, 3) * 1e-4], W=2, K=2, beta=1e-9, m=2, lam=1e-3)
 
 
 @driver("k2huge")
